@@ -168,6 +168,18 @@ CHECKS.update({
             "DESIGN.md §3 C09"),
 })
 
+CHECKS.update({
+    "C12": ("exploration",
+            "offline checker over per-process logs of output digests, the configuration (PYTHONHASHSEED, unrelated allocation and "
+            "elaboration beforehand, GC) being the variable; disagreements are re-run with full output to name the first differing field",
+            "The same design program (bundle / port-reference / array / pair / no-connect kernels incl. one bundle feeding several "
+            "ports of an instance, seeded random hierarchies, built-in generators, a 150-call generator program) is run in 6 (quick) "
+            "/ 16 (thorough) fresh processes; sha256 of the deterministic package bytes and of the spice / spectre / verilog text "
+            "must agree for every design.",
+            "one machine and interpreter build; allocation history approximated by seeded junk work",
+            "DESIGN.md §3 C12"),
+})
+
 NOT_APPLICABLE = {}
 
 
